@@ -183,7 +183,9 @@ def run(ctx):
     evaluate(ctx, cases)
     n = ctx.n(300, 10000)
     done = 0
-    while done < n and not ctx.out_of_time():
+    soft = ctx.t0 + (110 if ctx.tier == "quick" and not ctx.escalated else 1e9)   # keep the quick tier under ~3 minutes
+    import time
+    while done < n and not ctx.out_of_time() and time.time() < soft:
         k = min(60, n - done)
         evaluate(ctx, [lib_db.gen_history(ctx.rng, ctx.rng.randint(5, 40)) for _ in range(k)])
         done += k
